@@ -1,6 +1,7 @@
 """pvc.expr -- expression evaluation (code and spec expressions share it)."""
 from __future__ import annotations
 import ast
+from . import extract
 from .smt import *
 from .core import *
 
@@ -114,7 +115,44 @@ class ExprMixin:
         if getattr(self, "spec_mode", False) and name in self.cur_contract.get("locals", {}):
             # the contract talks about a local the code no longer has (renamed / removed): undecided, not a verdict about the property
             raise KeyError(f"local '{name}' named by the contract does not exist at this point of the code")
+        if getattr(self, "spec_mode", False) and not getattr(self, "in_code_comp", 0) and not self.is_module_global(name):
+            # same for any other name a contract expression uses that is neither bound here nor a global of the module under verification
+            # (typically a loop variable or local that was renamed): the contract no longer matches the code
+            raise KeyError(f"name '{name}' used by the contract is not bound at this point of the code")
         return c.app("glob_" + name, [], OBJ, [])
+
+    def is_module_global(self, name):
+        import builtins
+        if hasattr(builtins, name) or name in SORTNAMES or name in getattr(self.m, "sortnames", {}):
+            return True       # builtins; sort names that appear as arguments of spec forms (forall(x, Str, ...), smt(..., sort=Str))
+        where = self.cur_contract.get("where")
+        if not where:
+            return True
+        rel = where.split(":")[0]
+        cache = self.__dict__.setdefault("_module_globals", {})
+        if rel not in cache:
+            names = set()
+            try:
+                tree, _ = extract.parse_file(rel)
+                for x in tree.body:
+                    if isinstance(x, (ast.FunctionDef, ast.AsyncFunctionDef, ast.ClassDef)):
+                        names.add(x.name)
+                    elif isinstance(x, (ast.Import, ast.ImportFrom)):
+                        names.update((a.asname or a.name).split(".")[0] for a in x.names)
+                    elif isinstance(x, (ast.Assign, ast.AnnAssign, ast.AugAssign)):
+                        for t in (x.targets if isinstance(x, ast.Assign) else [x.target]):
+                            names.update(n_.id for n_ in ast.walk(t) if isinstance(n_, ast.Name))
+                    elif isinstance(x, (ast.If, ast.Try)):
+                        for y in ast.walk(x):
+                            if isinstance(y, (ast.Import, ast.ImportFrom)):
+                                names.update((a.asname or a.name).split(".")[0] for a in y.names)
+                            elif isinstance(y, ast.Assign):
+                                for t in y.targets:
+                                    names.update(n_.id for n_ in ast.walk(t) if isinstance(n_, ast.Name))
+            except Exception:
+                return True
+            cache[rel] = names
+        return name in cache[rel]
 
     def ev_attr(self, n, st, old):
         c = self.ctx
@@ -653,6 +691,8 @@ class ExprMixin:
         self.comp_side = [] if not saved_spec else None
         self.in_spec = saved_spec
         self.spec_mode = True
+        if not saved_spec:
+            self.in_code_comp = getattr(self, "in_code_comp", 0) + 1     # a comprehension of the code, evaluated in spec mode
         try:
             conds = [self.truth(self.ev(i, st2, old)).s for i in g.ifs]
             if isinstance(n, ast.DictComp):
@@ -666,6 +706,8 @@ class ExprMixin:
         finally:
             self.nofork -= 1
             self.spec_mode = saved_spec
+            if not saved_spec:
+                self.in_code_comp -= 1
             side, self.comp_side = self.comp_side, saved_side
         st.pc.extend(st2.pc[len(st.pc):])
         qdecl = " ".join(f"({v} {sort_smt(s)})" for v, s in qvars)
